@@ -1,1 +1,53 @@
-// harnesses for module m_user (included into /repo under cfg(kani))
+// C13/C14: -uid (and -user N) compare the selected record's owner id.
+use super::*;
+use crate::find::matchers::entry::verif_kani::*;
+use crate::find::matchers::stat::verif_kani::{any_cv, want_cmp};
+use crate::find::matchers::Follow;
+
+// @harness props=C13,C14 tier=quick cost=60 flags=nomem
+// @exec UserMatcher::{from_comparable,from_uid,matches}, ComparableValue::matches, WalkEntry::metadata
+// @sym world, follow P/H/L, depth 0..1, N: u64, form; uid: u32
+// @bounds one path; depth <= 1
+// @assume kernel contract for stat vs lstat
+#[kani::proof]
+#[kani::unwind(3)]
+#[kani::stub(alloc::fmt::format, fmt_stub)]
+#[kani::stub(std::fs::metadata, stat_stub)]
+#[kani::stub(std::fs::symlink_metadata, lstat_stub)]
+fn c13_uid_record() {
+    let (lst, sst, s_ok, s_err) = any_world(&[libc::ENOENT, libc::ELOOP]);
+    let follow = any_follow();
+    let depth: usize = kani::any();
+    kani::assume(depth <= 1);
+    let entry = WalkEntry::new("a", depth, follow);
+    let deps = Deps::new();
+    let mut io = MatcherIO::new(&deps);
+    let rec = selected_record(lst, sst, s_ok, s_err, follow.follow_at_depth(depth));
+    if kani::any() {
+        let (cv, k, n) = any_cv();
+        let got = UserMatcher::from_comparable(cv).matches(&entry, &mut io);
+        match rec { Some(r) => assert!(got == want_cmp(k, n, r.st_uid as u64)), None => assert!(!got) }
+        kani::cover!(got && k == 2);
+    } else {
+        let uid: u32 = kani::any();
+        let got = UserMatcher::from_uid(uid).matches(&entry, &mut io);
+        match rec { Some(r) => assert!(got == (r.st_uid == uid)), None => assert!(!got) }
+        kani::cover!(got && follow == Follow::Always && s_ok && lst.st_uid != sst.st_uid);
+    }
+    std::mem::forget(entry);
+}
+#[kani::proof]
+#[kani::unwind(3)]
+#[kani::stub(alloc::fmt::format, fmt_stub)]
+#[kani::stub(std::fs::metadata, stat_stub)]
+#[kani::stub(std::fs::symlink_metadata, lstat_stub)]
+fn c13_uid_record_canary() {
+    let (lst, _sst, _s_ok, _s_err) = any_world(&[libc::ENOENT]);
+    let entry = WalkEntry::new("a", 0, any_follow());
+    let deps = Deps::new();
+    let mut io = MatcherIO::new(&deps);
+    let uid: u32 = kani::any();
+    let got = UserMatcher::from_uid(uid).matches(&entry, &mut io);
+    assert!(got == (lst.st_gid == uid)); // wrong field: must FAIL
+    std::mem::forget(entry);
+}
